@@ -11,8 +11,8 @@ for _n, _c in ((2, 1), (2, 2)):
     GROUPS.append(dict(_S, cls='B', name='softclip_safe_n%dc%d' % (_n, _c), entry='h_softclip_safe', unwind=_n + 3, timeout=3000, mem_gb=20,
         defines=['-U__SSE__', '-DVERIF_N=%d' % _n, '-DVERIF_C=%d' % _c], bounds='N=%d x C=%d, arbitrary non-NaN floats, memory in [-1,1]' % (_n, _c),
         what='memory safety and termination on arbitrary non-NaN input'))
-for _n, _c, _tier in ((3, 2, 'quick'), (4, 2, 'thorough'), (3, 3, 'thorough')):
-    GROUPS.append(dict(_S, cls='B', name='softclip_independence_n%dc%d' % (_n, _c), entry='h_softclip_independence', unwind=_n + 3, timeout=5400, mem_gb=24, tier=_tier,
+for _n, _c, _tier in ((3, 2, 'thorough'), (4, 2, 'thorough'), (3, 3, 'thorough')):
+    GROUPS.append(dict(_S, cls='B', name='softclip_independence_n%dc%d' % (_n, _c), entry='h_softclip_independence', unwind=_n * _c + 2, timeout=5400, mem_gb=24, tier=_tier,
         defines=['-U__SSE__', '-DVERIF_N=%d' % _n, '-DVERIF_C=%d' % _c], bounds='N=%d x C=%d, arbitrary finite floats, memory in [-1,1]' % (_n, _c),
         what='one interleaved call equals C mono calls with per-channel memory, bit for bit'))
 META = {'cex': {'self': True, 'timeout': 900}}
